@@ -409,7 +409,7 @@ OPTS = {'quick': {'time_budget': 70}, 'thorough': {'time_budget': 900}}
 META = {
     'explanation': "C19: sum / min / max / nonzero_counts / density / reduce / nonzero, util.compute_counts_per_sample_stats and every figure and "
                    "listed ID of the summarize-table report (quantitative, qualitative, per-observation; number holes compared by their terms before "
-                   "formatting, detail lines in value order) and the table-ids / head command callbacks, and what to_dataframe / metadata_to_dataframe hand to pandas, on every representation state of non-square "
+                   "formatting, detail lines in value order) and the table-ids / head command callbacks, what to_dataframe / metadata_to_dataframe hand to pandas and what export-metadata asks pandas to write, on every representation state of non-square "
                    "tables, with the accessors asked in different orders.",
     'encoded': {'biom/table.py': ['sum', 'min', 'max', 'nonzero_counts', 'get_table_density', 'reduce', 'nonzero', 'iter_data', 'head',
                                   'delimited_self', 'transpose'],
